@@ -165,7 +165,9 @@ def bounded(ctx):
         return got, (str(prod.seq).upper() if prod is not None else None)
 
     scen = {"complete": (vtext, texts), "invalid-vector": (bad_vtext, texts), "missing": (missing_vtext, texts),
-            "duplicate": (vtext, texts + [dup_text])}
+            "duplicate": (vtext, texts + [dup_text]),
+            # the same plasmid supplied twice (two records): whatever the verdict, it is the same for every spelling of the copies
+            "same-plasmid-twice": (vtext, texts + [texts[0]])}
     for name, (vt, mts) in scen.items():
         ref = run(vt, mts, ["upper"] * (len(mts) + 1))
         combos = list(itertools.product(("upper", "lower", "mixed"), repeat=len(mts) + 1))
